@@ -71,6 +71,8 @@ type State struct {
 	alloc  string
 	trace  []string
 	depth  int
+	frameID    int
+	frameDepth int
 	// call-frame linkage for inlined calls
 	frame *Frame
 }
@@ -82,7 +84,7 @@ type Frame struct {
 }
 
 func (st *State) fork() *State {
-	n := &State{decls: st.decls, alloc: st.alloc, depth: st.depth, frame: st.frame}
+	n := &State{decls: st.decls, alloc: st.alloc, depth: st.depth, frame: st.frame, frameID: st.frameID, frameDepth: st.frameDepth}
 	n.heap = make(map[string]string, len(st.heap))
 	for k, v := range st.heap {
 		n.heap[k] = v
